@@ -2,7 +2,7 @@
 
 Expr : ["ref", name] | ["lit", int] | ["neg", e] | ["add"|"sub"|"mul", e, e]
        | ["udf", fname, e]                       (engine function, may fault)
-Pred : ["cmp", "eq|ne|lt|le|gt|ge", e, e] | ["and", p...] | ["or", p...]
+Pred : ["cmp", "eq|ne|lt|le|gt|ge", e, e] | ["cmpr", ...] (same, restricted to the iteration engines) | ["and", p...] | ["or", p...]
        | ["not", p] | ["plit", bool] | ["inrange", e, start, stop, step]
        | ["inseq", e, [e, ...]]
 
@@ -52,7 +52,7 @@ def expr_cols(e) -> set[str]:
 
 def pred_cols(p) -> set[str]:
     k = p[0]
-    if k == "cmp":
+    if k in ("cmp", "cmpr"):
         return expr_cols(p[2]) | expr_cols(p[3])
     if k in ("and", "or"):
         out: set[str] = set()
@@ -88,6 +88,8 @@ def expr_udfs(e) -> set[str]:
 
 def pred_udfs(p) -> set[str]:
     k = p[0]
+    if k == "cmpr":      # a comparison restricted to the iteration engines: counts as engine-restricted like "itonly"
+        return {"itonly"} | expr_udfs(p[2]) | expr_udfs(p[3])
     if k == "cmp":
         return expr_udfs(p[2]) | expr_udfs(p[3])
     if k in ("and", "or"):
@@ -125,7 +127,7 @@ def eval_expr(e, row):
 
 def eval_pred(p, row) -> bool:
     k = p[0]
-    if k == "cmp":
+    if k in ("cmp", "cmpr"):
         return bool(CMP[p[1]](eval_expr(p[2], row), eval_expr(p[3], row)))
     if k == "and":
         return all(eval_pred(q, row) for q in p[1:])
@@ -201,6 +203,11 @@ def build_pred(p, tags):
     k = p[0]
     if k == "cmp":
         return getattr(build_expr(p[2], tags), p[1])(build_expr(p[3], tags))
+    if k == "cmpr":
+        from lsst.daf.relation import iteration
+
+        return build_expr(p[2], tags).predicate_method(f"__{p[1]}__", build_expr(p[3], tags),
+                                                       supporting_engine_types=(iteration.Engine,))
     if k == "and":
         return Predicate.logical_and(*[build_pred(q, tags) for q in p[1:]])
     if k == "or":
